@@ -15,7 +15,9 @@ from vf.models import names as nm
 PROP = "C18"
 RULE = ("paired histories of 25..70 operations over 3..7 raw clients, each executed on two fresh ASan daemons from the "
         "same seeded plan: broadcast / unicast signals, calls to unique, well-known, vanished and never-existing names, "
-        "requested and unrequested replies, send-denied calls, receive-denied signals, forged sender fields, messages "
+        "requested and unrequested replies, send-denied calls, receive-denied signals, messages of unknown type codes (5..255, either "
+        "byte order, optional header fields present or absent, addressed to peers, owned and ownerless names and the bus), "
+        "forged sender fields, messages "
         "from a connection that never said Hello, RequestName / ReleaseName churn with queues, AddMatch / RemoveMatch, "
         "driver queries, connects, disconnects, invalid BecomeMonitor calls (bad rule, nonzero flags, wrong signature, "
         "unprivileged uid) and 0..2 clients that call BecomeMonitor (empty filter or 1..3 selective rules over type, "
@@ -47,6 +49,7 @@ MARK_IF = b"org.verif.Marker"
 MARK_RULE = b"type='signal',interface='org.verif.Marker'"
 NOBODY = 65534
 ACCESS_DENIED = b"org.freedesktop.DBus.Error.AccessDenied"
+ODD_TYPES = [5, 5, 7, 7, 200, 255, 6, 9, 64, 128]
 
 POLICY = """
   <policy context="default">
@@ -83,6 +86,7 @@ class Planner(object):
         self.monitors = []      # idx in activation order
         self.gone_names = []    # names (unique tokens) that no longer exist
         self.mon_names = set()  # names once held by a connection that became a monitor
+        self.mon_rules = []     # selective filter rules (key -> value) of the monitors so far, without a type key
 
     # -- helpers
     def owners(self):
@@ -302,6 +306,53 @@ class Planner(object):
             (b"ListActivatableNames", b"", []), (b"NoSuchMethod", b"", [])])
         return self.emit({"k": "query", "c": i, "member": member, "sig": sig, "body": body})
 
+    def odd(self, i):
+        """a message whose type code is none of the four known ones: legal on the wire, refused by the bus"""
+        rng = self.rng
+        r = rng.random()
+        peers = [tok(j) for j in self.ords()]
+        owned = sorted(self.owners())
+        if r < 0.35:
+            dest = rng.choice(peers)
+        elif r < 0.55 and owned:
+            dest = rng.choice(owned)
+        elif r < 0.75:
+            dest = BUS
+        else:
+            dest = self.some_dest(i)
+        sig, body = self.body()
+        op = {"k": "odd", "c": i, "mtype": rng.choice(ODD_TYPES), "dest": dest,
+              "path": rng.choice(PATHS + [BUS_PATH]) if rng.random() < 0.6 else None,
+              "iface": rng.choice(IF_OK + [IF_DENIED, IF_NORECV, BUS]) if rng.random() < 0.6 else None,
+              "member": rng.choice(MEMBERS + [b"GetId"]) if rng.random() < 0.6 else None,
+              "rs": rng.randint(1, 40) if rng.random() < 0.2 else None,
+              "errname": b"com.example.Error.Odd" if rng.random() < 0.15 else None,
+              "sig": sig, "body": body, "flags": rng.choice([0, 0, 1, 2, 3]), "order": rng.choice(["l", "l", "B"]),
+              "forge": rng.choice([BUS, tok(rng.choice(sorted(self.cl)))]) if rng.random() < 0.1 else None}
+        if self.mon_rules and rng.random() < 0.5:
+            # aim at one selective rule of an attached monitor, so that such filters do get to decide on unknown types
+            rule = rng.choice(self.mon_rules)
+            for k, v in rule.items():
+                if k == b"interface":
+                    op["iface"] = v
+                elif k == b"member":
+                    op["member"] = v
+                elif k == b"path":
+                    op["path"] = v
+                elif k == b"destination":
+                    op["dest"] = dest = v
+                elif k == b"arg0":
+                    op["sig"], op["body"] = b"s", [v]
+                elif k == b"sender":
+                    who = self.owners().get(v, v)
+                    m = _tok_re.match(who)
+                    if m and int(m.group(1)) in self.ords():
+                        op["c"] = i = int(m.group(1))
+        o = self.resolve(dest)
+        op["refused"] = "unknown-type" if o is not None else "unknown-type-no-owner"
+        op["to_mon_name"] = dest in self.mon_names and o is None
+        return self.emit(op)
+
     def nodest(self, i):
         return self.emit({"k": "nodest", "c": i, "iface": self.rng.choice([b"org.freedesktop.DBus.Peer", IF_OK[0]]),
                           "member": b"Ping", "path": b"/"})
@@ -376,6 +427,10 @@ class Planner(object):
         if rng.random() < 0.15:
             self.badmon(m)
         rules = self.gen_filter()
+        for t in rules[:-1]:
+            d = dict(mr.tokenize(t))
+            if b"type" not in d:
+                self.mon_rules.append(d)
         old_rules = [t for _, t in self.cl[m]["rules"]]
         ev, noreply, owned, queued = self.leave(m, True)
         self.monitors.append(m)
@@ -388,7 +443,9 @@ class Planner(object):
         c = rng.choice(ords)
         r = rng.random()
         op = None
-        if r < 0.22:
+        if r < 0.045:
+            op = self.odd(c)
+        elif r < 0.22:
             op = self.signal(c, unicast=False)
         elif r < 0.28:
             op = self.signal(c, unicast=True)
@@ -424,10 +481,12 @@ class Planner(object):
             unpriv = [j for j in cands if self.cl[j]["uid"] is not None]
             if cands:
                 op = self.badmon(rng.choice(unpriv) if unpriv and rng.random() < 0.6 else rng.choice(cands))
-        elif r < 0.985:
+        elif r < 0.975:
             op = self.state()
-        else:
+        elif r < 0.988:
             op = self.nodest(c)
+        else:
+            op = self.odd(c)
         if op is None:
             self.signal(c, unicast=False)
 
@@ -678,6 +737,24 @@ class Exec(object):
 
     def op_query(self, op):
         self.cl[op["c"]].bus_call(op["member"], op["sig"], self.sub(op["body"]))
+
+    def op_odd(self, op):
+        c = self.cl[op["c"]]
+        s = self.send(op, c, op["mtype"], path=op["path"], iface=op["iface"], member=op["member"], dest=self.sub(op["dest"]),
+                      reply_serial=op["rs"], error_name=op["errname"], sig=op["sig"], body=op["body"], flags=op["flags"],
+                      order=op["order"], sender=self.sub(op["forge"]))
+        c.barrier()
+        if self.mode == "A":
+            self.part.count("unknown-type-sent")
+            self.part.count("unknown-type-sent:%s" % ("to-bus" if op["dest"] == BUS else ("no-owner" if op["refused"].endswith("no-owner")
+                            else ("to-unique" if op["dest"][:1] == b":" else "to-well-known"))))
+            if op["order"] == "B":
+                self.part.count("unknown-type-sent:big-endian")
+            # what the bus answers is its own business (AccessDenied / ServiceUnknown / NameHasNoOwner on this tree); that it
+            # answers at all is recorded, and the answer must reach the monitors like any other bus-generated message
+            n = len([r for r in c.log if r.msg.type == 3 and r.msg.known().get(7) == BUS and r.msg.known().get(5) == s])
+            self.part.count("unknown-type-answered-%d-times" % n)
+        self.check_refusal(op, c, s)
 
     def op_nodest(self, op):
         c = self.cl[op["c"]]
@@ -935,6 +1012,14 @@ def judge_monitors(ex, part):
             t_of[(i, serial)] = t
     op_of = {v: plan.ops[k] for k, v in ex.callinfo.items()}
     u0 = ex.uniq[0]
+    # a message of an unknown type is refused: no connection that is not a monitor may ever receive one
+    for i, c in ex.cl.items():
+        end = ex.mons[i]["start"] if i in ex.mons else len(c.log)
+        for rec in c.log[:end]:
+            if rec.msg.type > 4:
+                ex.violation("unknown-type-delivered", "a message of unknown type %d was delivered to connection %d, which is not a monitor"
+                             % (rec.msg.type, i))
+                break
     # names a connection owned at any time: a bus-generated message (always addressed by unique name) is not judged
     # against destination='<well-known name>' when its addressee may have owned that name (its exact time is unknown)
     ever = {}
@@ -1091,8 +1176,13 @@ def judge_monitors(ex, part):
                     part.count("broadcast-seen", got)
                 if info["cat"].startswith("inactive-"):
                     part.count("inactive-sender-seen", got)
+                if info["cat"].endswith("unknown-type"):
+                    part.count("unknown-type-shown", got)
+                    part.count("unknown-type-shown:%s-filter" % ("empty" if filt.empty() else "selective"), got)
             elif E.required.get(key, 0) == 0 and E.optional.get(key, 0) == 0:
                 part.count("filtered-out-and-absent" if not seen.get(key) else "filtered-out-but-present")
+                if info["cat"].endswith("unknown-type") and not seen.get(key):
+                    part.count("unknown-type-filtered-out-and-absent")
         for key, n in E.optional.items():
             if key not in tail and seen.get(key, 0) > E.required.get(key, 0):
                 part.count("transition-copies", seen[key] - E.required.get(key, 0))
@@ -1389,6 +1479,16 @@ def run(tier, seed, replay=None, scale=1.0):
         r.require("destination-filter-judged", 3000)
         r.require("destination-no-owner-shown", 15)
         r.require("destination-bus-shown", 100)
+        r.require("unknown-type-sent", 300)
+        r.require("unknown-type-sent:to-bus", 40)
+        r.require("unknown-type-sent:to-unique", 60)
+        r.require("unknown-type-sent:to-well-known", 20)
+        r.require("unknown-type-sent:no-owner", 40)
+        r.require("unknown-type-sent:big-endian", 60)
+        r.require("unknown-type-shown", 200)
+        r.require("unknown-type-shown:empty-filter", 80)
+        r.require("unknown-type-shown:selective-filter", 25)
+        r.require("unknown-type-filtered-out-and-absent", 50)
         r.require("monitor-sent", 200)
         r.require("name-release-checked", 200)
         r.require("invalid-become-monitor", 80)
@@ -1414,5 +1514,8 @@ def run(tier, seed, replay=None, scale=1.0):
         "delivered to a connection under another of that connection's names than the rule gives (the bus compares by ownership "
         "there), bus-generated messages to a connection that may have owned the rule's well-known name, and NameLost addressed to a "
         "connection that is giving up its names in BecomeMonitor / has just vanished",
+        "messages of unknown type are only sent with a DESTINATION field (without one they take the same uncaptured path as the known "
+        "finding without-destination-call); which error the bus answers them with is not judged, only that the answer the sender "
+        "received is shown to the monitors; the byte order of a monitor's copy is not judged",
         "only the paired control 'disconnects instead' is run; the 'never connects' control of DESIGN.md is not"]
     return r.finish()
